@@ -117,24 +117,33 @@ def run(ctx, w):
                 rng = WD.strip_names(c15_strip_clone(T.operand(cs.term["args"][1], cs.point)))
                 pen = WD.strip_names(T.operand(cs.term["args"][3], cs.point))
                 key = "%s:%s" % (f, shared.site_key(w, f, cs.point))
+                fsel = f
+                if rng[0] == "call" and rng[1] in w.bodies and rng[2] == (("ref", False, ("load", ("arg1",))),) and not E.summaries[rng[1]].W:
+                    # the range is computed by a pure helper method of the terminal: analyse the helper
+                    fsel = rng[1]
+                    hb = w.body(fsel)
+                    HT = w.terms(fsel)
+                    rts = [WD.strip_names(HT.local(0, (rb, hb.n_stmts(rb)))) for rb in hb.return_blocks()]
+                    rng = rts[0] if len(rts) == 1 else ("phi", tuple(rts))
                 if f in il_handlers:
                     alts = set(rng[1]) if rng[0] == "phi" else {rng}
                     ok = alts == {il_in, il_below}
                     ctx.check(ok, "W3", key, "%s scrolls %s; IL/DL must act on cursor.row..bottom_margin+1 or cursor.row..rows" % (f, w.tstr(f, rng)), loc=w.site_loc(cs),
                               sample={"fn": f, "range": w.tstr(f, rng)})
                     # the selection between the two is `cursor.row <= bottom_margin`
-                    b = w.body(f)
+                    b = w.body(fsel)
+                    TS = w.terms(fsel)
                     conds = []
                     for blk in sorted(b.normal_blocks()):
                         t = b.term(blk)
                         if t["k"] == "switch":
-                            conds.append(WD.strip_names(T.operand(t["discr"], (blk, b.n_stmts(blk)))))
+                            conds.append(WD.strip_names(TS.operand(t["discr"], (blk, b.n_stmts(blk)))))
                     sel = any(c[0] == "binop" and ((c[1] == "Le" and c[2] == row_t and c[3] == bm_t) or (c[1] == "Ge" and c[2] == bm_t and c[3] == row_t)
                                                    or (c[1] == "Gt" and c[2] == row_t and c[3] == bm_t) or (c[1] == "Lt" and c[2] == bm_t and c[3] == row_t)) for c in conds)
                     ctx.check(sel, "W3", key + ":select", "%s does not choose between the two ranges by comparing the cursor row with the bottom margin (conditions: %s)" % (f, [w.tstr(f, c) for c in conds]), loc=w.fn_loc(f))
                     if sel:
                         # orientation: the in-region range is built under row <= bm
-                        ok2 = range_guard_ok(w, f, il_in, il_below, row_t, bm_t)
+                        ok2 = range_guard_ok(w, fsel, il_in, il_below, row_t, bm_t)
                         ctx.check(ok2, "W3", key + ":orientation", "%s uses the to-the-last-row range when the cursor is inside the region (or vice versa)" % f, loc=w.fn_loc(f))
                 else:
                     ctx.check(rng == region, "W3", key, "%s scrolls %s instead of the scroll region top_margin..bottom_margin+1" % (f, w.tstr(f, rng)), loc=w.site_loc(cs),
@@ -210,7 +219,7 @@ def run(ctx, w):
                           loc=w.site_loc(cs), sample={"fn": fn, "role": role, "limit": w.tstr(fn, lim)})
             else:
                 ctx.violation("W7", "%s:%s" % (fn, shared.site_key(w, fn, cs.point)), "cannot tell the role of the buffer created in %s" % fn, loc=w.site_loc(cs))
-    ctx.floor("W7", 5, "buffer construction sites")
+    ctx.floor("W7", 3, "buffer construction sites")
 
     # ---- W9 ---------------------------------------------------------------------------------------------
     ctx.rule("W9", "in the scroll-up primitive existing rows are overwritten / rotated only when the range does not start at row 0; every path decides that first")
